@@ -532,6 +532,49 @@ fn parse_oracle(c: &ParseCase, obs: &mut Obs) -> Check {
     }
 }
 
+/// plain dates: print/parse round trip, every accepted syntax, ordering by calendar
+#[derive(Clone, Debug, Serialize, Deserialize)]
+pub struct DateCase {
+    /// days since 1970-01-01
+    pub days: i64,
+    pub other_days: i64,
+}
+
+fn date_oracle(c: &DateCase, obs: &mut Obs) -> Check {
+    use liquid::model::Date;
+    obs.nt(&(c.days, c.other_days));
+    let (y, m, d) = cal::civil_from_days(c.days);
+    let date = Date::from_ymd(y as i32, m as u8, d as u8);
+    let printed = date.to_string();
+    let want = format!("{y:04}-{m:02}-{d:02}");
+    if printed != want {
+        return Err(Failure::new("date: default printed form is not YYYY-MM-DD of the calendar date", format!("days={} printed={printed:?} want={want:?}", c.days)));
+    }
+    for text in [printed.clone(), format!("{d:02} {} {y:04}", MONTHS[m as usize - 1]), format!("{d:02} {} {y:04}", &MONTHS[m as usize - 1][..3])] {
+        match crate::engine::guard(|| Date::from_str(&text)) {
+            Err(p) => return Err(Failure::new(format!("date parser panics: {}", p.site()), format!("text={text:?} {}", p.what))),
+            Ok(Some(back)) if back == date && back.year() as i64 == y && back.month() as u32 == m && back.day() as u32 == d => {}
+            Ok(other) => return Err(Failure::new("date: an accepted syntax parses to a different date or is rejected", format!("text={text:?} got={other:?}"))),
+        }
+    }
+    if date.ordinal() as i64 != c.days - cal::days_from_civil(y, 1, 1) + 1 {
+        return Err(Failure::new("date: ordinal differs from the calendar", format!("date={printed} ordinal={}", date.ordinal())));
+    }
+    let (y2, m2, d2) = cal::civil_from_days(c.other_days);
+    let other = Date::from_ymd(y2 as i32, m2 as u8, d2 as u8);
+    let (va, vb) = (Value::scalar(date), Value::scalar(other));
+    if (va == vb) != (c.days == c.other_days) || va.partial_cmp(&vb) != Some(c.days.cmp(&c.other_days)) {
+        return Err(Failure::new("date: equality/ordering is not by calendar date", format!("{printed} vs {}", other)));
+    }
+    // serde round trip
+    let js = serde_json::to_string(&va).map_err(|e| Failure::new("date: serialisation fails", e.to_string()))?;
+    let back: Value = serde_json::from_str(&js).map_err(|e| Failure::new("date: its own serialisation does not deserialise", format!("{js} {e}")))?;
+    match liquid_core::model::ValueView::as_scalar(&back).and_then(|s| s.to_date()) {
+        Some(b) if b == date => Ok(()),
+        other => Err(Failure::new("date: serde round trip changes the date", format!("{js} -> {other:?}"))),
+    }
+}
+
 fn any_ts() -> BoxedStrategy<Ts> {
     // years 1..9999
     let lo = cal::days_from_civil(1, 1, 2) * 86400;
@@ -571,6 +614,11 @@ pub fn run(ctx: &Ctx) {
     ctx.random("order", ctx.pick(60_000, 600_000), || {
         (any_ts(), any_ts(), any::<bool>(), (-12 * 60..=14 * 60i32)).prop_map(|(a, b, same_instant, m)| if same_instant { Pair { a, b: Ts { offset: m * 60, ..a } } } else { Pair { a, b } })
     }, order_oracle);
+    {
+        let lo = cal::days_from_civil(1, 1, 1);
+        let hi = cal::days_from_civil(9999, 12, 31);
+        ctx.strided("dates_every_day", (hi - lo + 1) as u64, ctx.pick(29, 1), move |i| Some(DateCase { days: lo + i as i64, other_days: lo + ((i * 7919) % (hi - lo + 1) as u64) as i64 }), date_oracle);
+    }
     ctx.strided("parser_grid", nt * 8, ctx.pick(29, 1), |i| Some(ParseCase { ts: ts[(i / 8) as usize], syntax: (i % 8) as u8 }), parse_oracle);
     ctx.random("parser_random", ctx.pick(60_000, 600_000), || (any_ts(), 0u8..8).prop_map(|(ts, syntax)| ParseCase { ts, syntax }), parse_oracle);
 }
